@@ -7,6 +7,8 @@
    that records which were on disk before the step are gone:
      [k |-> "setfile",   path, append, new, trunc]     save_stream_file set to a path (saving starts, or rotates)
      [k |-> "setfilter", flt, new, trunc]               save_stream_filter changed
+     [k |-> "setfile_failed", new, trunc]               setting save_stream_file to an unopenable path was refused
+                                                        (OptionsError); the option keeps its previous value
      [k |-> "hook", h, f, ws, match, new, trunc]        lifecycle hook h of flow f; ws = the flow carries WebSocket data;
                                                         match = f matches the filter now (independent evaluation)
      [k |-> "stop", how, matching, new, trunc]          saving stops (option unset / shutdown); matching = the
@@ -17,9 +19,10 @@
 EXTENDS Verif
 
 MonInit == [bad |-> <<>>, wit |-> {}, saving |-> FALSE,
+            cfgfail |-> FALSE,  \* an option change was refused while saving, earlier in this history: only used in signatures
             pending |-> {},     \* started while saving was active, not completed, not yet handled by a stop
             stopw |-> {},       \* written at a stop and neither completed nor started again since
-            completed |-> {}]   \* last lifecycle event was a completion
+            completed |-> {}]   \* last lifecycle event was a completion that matched (so its record was written)
 
 StartHooks == {"request", "tcp_start", "udp_start", "dns_request"}
 EndHooks   == {"tcp_end", "tcp_error", "udp_end", "udp_error", "dns_response", "dns_error", "websocket_end"}
@@ -29,11 +32,13 @@ IsCompletion(ev) == ev.h \in EndHooks \/ (ev.h \in {"response", "error"} /\ ~ev.
 Count(s, x) == Cardinality({i \in 1..Len(s) : s[i] = x})
 Others(s, x) == \E i \in 1..Len(s) : s[i] # x
 
+Cause(m) == IF m.cfgfail THEN "after_refused_option_change" ELSE "normal"
+
 HookClause(m, ev) ==
   IF ev.trunc THEN <<"C39.records_lost", "hook">>
   ELSE IF IsCompletion(ev) THEN
     IF Others(ev.new, ev.f) THEN <<"C39.other_flow_written", ev.h>>
-    ELSE IF ev.match /\ Count(ev.new, ev.f) = 0 THEN <<"C39.completion_not_written", ev.h>>
+    ELSE IF ev.match /\ Count(ev.new, ev.f) = 0 THEN <<"C39.completion_not_written", ev.h, Cause(m)>>
     ELSE IF ev.match /\ Count(ev.new, ev.f) > 1 THEN <<"C39.completion_written_twice", ev.h>>
     ELSE IF ~ev.match /\ Count(ev.new, ev.f) > 0 THEN <<"C39.nonmatching_written", ev.h>>
     ELSE <<>>
@@ -45,7 +50,7 @@ StopClause(m, ev) ==
   LET M == ToSet(ev.matching)
       N == ToSet(ev.new)
   IN IF ev.trunc THEN <<"C39.records_lost", "stop">>
-     ELSE IF \E f \in m.pending \cap M : Count(ev.new, f) = 0 THEN <<"C39.stop_open_flow_not_written">>
+     ELSE IF \E f \in m.pending \cap M : Count(ev.new, f) = 0 THEN <<"C39.stop_open_flow_not_written", Cause(m)>>
      ELSE IF \E f \in N : Count(ev.new, f) > 1 THEN <<"C39.stop_written_twice">>
      ELSE IF N \ M # {} THEN <<"C39.nonmatching_written", "stop">>
      ELSE IF N \cap m.stopw # {} THEN <<"C39.stop_written_again">>
@@ -56,7 +61,7 @@ Clause(m, ev) ==
   CASE ev.k = "raised" -> <<"C39.raised", ev.op, ev.exc>>
     [] ev.k = "hook" /\ m.saving -> HookClause(m, ev)
     [] ev.k = "stop" /\ m.saving -> StopClause(m, ev)
-    [] ev.k \in {"setfile", "setfilter"} /\ m.saving ->
+    [] ev.k \in {"setfile", "setfilter", "setfile_failed"} /\ m.saving ->
          IF ev.new # <<>> THEN <<"C39.written_outside_completion", ev.k>> ELSE <<>>
     [] OTHER -> <<>>
 
@@ -78,6 +83,7 @@ WitOf(m, ev) ==
          (IF m.saving THEN {"rotate"} \cup (IF m.pending # {} THEN {"rotate_while_pending"} ELSE {})
           ELSE {IF ev.append THEN "start_append" ELSE "start_overwrite"}
                \cup (IF m.stopw # {} \/ m.completed # {} THEN {"second_session"} ELSE {}))
+    [] ev.k = "setfile_failed" -> IF m.saving THEN {"refused_option_change_while_saving"} ELSE {"refused_option_change"}
     [] ev.k = "setfilter" /\ m.saving ->
          {"filter_change"} \cup (IF m.pending # {} THEN {"filter_change_while_pending"} ELSE {})
     [] OTHER -> {}
@@ -89,6 +95,7 @@ MonStep(m, ev) ==
     !.bad = Clause(m, ev),
     !.wit = @ \cup WitOf(m, ev),
     !.saving = CASE ev.k = "setfile" -> TRUE [] ev.k = "stop" -> FALSE [] OTHER -> @,
+    !.cfgfail = @ \/ (ev.k = "setfile_failed" /\ m.saving),
     !.pending = CASE ev.k = "hook" /\ IsStart(ev) /\ m.saving -> @ \cup {ev.f}
                   [] ev.k = "hook" /\ IsCompletion(ev) -> @ \ {ev.f}
                   [] ev.k = "stop" -> {}
@@ -97,7 +104,7 @@ MonStep(m, ev) ==
                 [] ev.k = "stop" /\ m.saving -> @ \cup ToSet(ev.new)
                 [] OTHER -> @,
     !.completed = CASE ev.k = "hook" /\ IsStart(ev) -> @ \ {ev.f}
-                    [] ev.k = "hook" /\ IsCompletion(ev) -> @ \cup {ev.f}
+                    [] ev.k = "hook" /\ IsCompletion(ev) -> IF ev.match /\ m.saving THEN @ \cup {ev.f} ELSE @ \ {ev.f}
                     [] OTHER -> @]
 Wit(m) == m.wit
 =============================================================================
